@@ -187,8 +187,8 @@ struct HistResult {
     sample: Value,
 }
 
-async fn listen_somewhere() -> (Server, std::net::SocketAddr) {
-    for _ in 0..20 {
+pub async fn listen_somewhere() -> (Server, std::net::SocketAddr) {
+    for _ in 0..200 {
         let addr = crate::free_addr();
         if let Ok(s) = Server::listen(addr).await {
             return (s, addr);
